@@ -328,6 +328,16 @@ class Gen:
         if cls in ("arr0", "arr2", "arrobj"):
             n, m = {"arr0": (0, 0), "arr2": (2, 0), "arrobj": (1, 2)}[cls]
             elems = [self.scalar_op("", "array", keyed=False) for _ in range(n)]
+            if m == 0:
+                # Array.Err of an error that is a LogObjectMarshaler: the element is an object rendered by the error's own
+                # marshaler - one value to the builder discipline (only in arrays without Dict / Object elements, whose
+                # structure is NOT opaque)
+                for el in elems:
+                    if el.get("m") == "Err" and r.random() < 0.5:
+                        if kname not in self.opaque_el:
+                            self.opaque_el.append(kname)
+                        self.errobj_n = getattr(self, "errobj_n", 0) + 1
+                        el["v"].update({"ek": "obj", "f": [{"m": "Str", "k": b64("m%d_%d" % (self.errobj_n, i)), "v": self.tv_string()} for i in range(r.choice([0, 1, 1, 2]))]})
             for i in range(m):
                 sub = [self.scalar_op(kname + "ab"[i], "event")]
                 elems.append({"m": "Object", "f": sub} if r.random() < 0.5 else {"m": "Dict", "f": sub})
